@@ -124,3 +124,50 @@ Fixpoint last_assign (en : env) (asg : list (nat * expr)) (i : nat) (cur : res v
   end.
 
 End UpdateSpec.
+
+(* ---------- aggregate queries ---------- *)
+Section AggSpec.
+Variable expr : Type.
+Variable eval : env -> expr -> res val.
+Notation query := (query expr).
+
+(* the (group key, transparent values) tuples handed to select_aggregated, in order *)
+Fixpoint agg_matches (q : query) (nr : nat) (a : rec) (ms : list binfo) : res (list (key * list val)) :=
+  match ms with
+  | [] => Ok []
+  | b :: t => do kv <- agg_values eval q (env_of nr a b 0);
+              do rs <- agg_matches q nr a t;
+              Ok (match kv with Some x => x :: rs | None => rs end)
+  end.
+
+Fixpoint agg_inputs (q : query) (jm : option jmap) (nr : nat) (A : list rec) : res (list (key * list val)) :=
+  match A with
+  | [] => Ok []
+  | a :: t => do ms <- matches_of expr q jm (S nr) a;
+              do r <- agg_matches q (S nr) a ms;
+              do rs <- agg_inputs q jm (S nr) t; Ok (r ++ rs)
+  end.
+
+(* all columns fed with all tuples *)
+Fixpoint cols_feed (cs : list col) (inputs : list (key * list val)) : res (list col) :=
+  match inputs with
+  | [] => Ok cs
+  | (k, vs) :: t => do cs' <- cols_increment cs k vs; cols_feed cs' t
+  end.
+
+Definition all_keys (inputs : list (key * list val)) : list key :=
+  fold_left keys_add (map fst inputs) [].
+
+(* one row per distinct key, in ascending key order: each column's final value for that key *)
+Definition agg_rows (q : query) (inputs : list (key * list val)) : res (list row) :=
+  match inputs with
+  | [] => Ok []
+  | _ => do cs <- cols_feed (map col_init (col_kinds q)) inputs;
+         final_rows cs (sort_keys (all_keys inputs))
+  end.
+
+(* column i of the tuples *)
+Definition column (i : nat) (inputs : list (key * list val)) : list (key * val) :=
+  map (fun kv => (fst kv, nth i (snd kv) VNone)) inputs.
+
+End AggSpec.
